@@ -586,6 +586,117 @@ func init() {
 			}
 		}})
 
+	register(&Obligation{ID: "C15.g", Props: []string{"C15"}, Template: "must-precede+must-follow",
+		Desc: "membership changes during a deployment are not lost and no second deployment starts meanwhile: evaluateClusterStatus sets StatusAssemblyStarting and installs the new assembly before it spawns Job.start (the status switch has no case for that state, so later evaluations do nothing until the start ends); the task that sets StatusRunning and the task that handles a failed start both re-evaluate the cluster status afterwards, which is when a member lost during the deployment is noticed",
+		Run: func(r *Run) {
+			ev := r.P.Func("jobs", "(*Job).evaluateClusterStatus")
+			st := r.P.Func("jobs", "(*Job).start")
+			info := ev.Pkg.TypesInfo
+			status := r.P.Field("jobs", "Job", "status")
+			asm := r.P.Field("jobs", "Job", "assembly")
+			scope := r.P.Pkg("jobs").Types.Scope()
+			starting, running, paused := scope.Lookup("StatusAssemblyStarting"), scope.Lookup("StatusRunning"), scope.Lookup("StatusPaused")
+			if starting == nil || running == nil || paused == nil {
+				r.Error("unresolved anchor: jobs.Status* constants")
+				return
+			}
+			setsTo := func(c *pathsim.Ctx, e *pathsim.Event, to types.Object) bool {
+				if e.Kind != pathsim.EvCall || e.Call == nil || len(e.Call.Args) != 1 {
+					return false
+				}
+				sel, ok := ast.Unparen(e.Call.Fun).(*ast.SelectorExpr)
+				return ok && sel.Sel.Name == "Set" && prog.SelField(c.Info, sel.X) == status && prog.IdentObj(c.Info, e.Call.Args[0]) == to
+			}
+			// (1) in evaluateClusterStatus: before `go func() { j.start() ... }`
+			var goLit *ast.FuncLit
+			ast.Inspect(ev.Decl.Body, func(nd ast.Node) bool {
+				if gs, ok := nd.(*ast.GoStmt); ok {
+					if lit, ok := gs.Call.Fun.(*ast.FuncLit); ok && r.exprCalls(info, lit.Body, st.Obj) {
+						goLit = lit
+					}
+				}
+				return true
+			})
+			if goLit == nil {
+				r.Error("undecided: evaluateClusterStatus no longer spawns Job.start in a goroutine")
+				return
+			}
+			r.Site(goLit.Pos(), "evaluateClusterStatus spawns Job.start")
+			spec := &pathsim.Spec{Step: func(c *pathsim.Ctx, s pathsim.State, e *pathsim.Event) []pathsim.State {
+				if setsTo(c, e, starting) {
+					s.A = 1
+					return []pathsim.State{s}
+				}
+				if e.Kind == pathsim.EvAssign {
+					for _, l := range e.Lhs {
+						if prog.SelField(c.Info, l) == asm {
+							s.B = 1
+							return []pathsim.State{s}
+						}
+					}
+				}
+				if e.Kind == pathsim.EvFuncLit && e.Lit == goLit {
+					if s.A == 0 {
+						c.Violate(e.Pos, "[start-without-status] Job.start is spawned while the status is still Init/Paused: the next membership change builds a second assembly and deploys it concurrently with this one")
+					}
+					if s.B == 0 {
+						c.Violate(e.Pos, "[start-without-assembly] Job.start is spawned before the new assembly is installed in Job.assembly")
+					}
+				}
+				return nil
+			}}
+			r.Sim(ev.Decl, ev.Name()+":spawn", spec)
+			// (2), (3): after Set(Running) / Set(Paused) in a task literal, evaluateClusterStatus is called before the task ends
+			follow := func(root ast.Node, owner string, to types.Object, tag, why string) {
+				n := 0
+				ast.Inspect(root, func(nd ast.Node) bool {
+					lit, ok := nd.(*ast.FuncLit)
+					if !ok {
+						return true
+					}
+					// literal that directly (not in nested literals) sets the status
+					direct := false
+					ast.Inspect(lit.Body, func(m ast.Node) bool {
+						if inner, ok := m.(*ast.FuncLit); ok && inner != lit {
+							return false
+						}
+						if call, ok := m.(*ast.CallExpr); ok && len(call.Args) == 1 {
+							if sel, ok := ast.Unparen(call.Fun).(*ast.SelectorExpr); ok && sel.Sel.Name == "Set" && prog.SelField(info, sel.X) == status && prog.IdentObj(info, call.Args[0]) == to {
+								direct = true
+							}
+						}
+						return true
+					})
+					if !direct {
+						return true
+					}
+					n++
+					r.Site(lit.Pos(), owner+": task that sets "+to.Name())
+					sp := &pathsim.Spec{Step: func(c *pathsim.Ctx, s pathsim.State, e *pathsim.Event) []pathsim.State {
+						if setsTo(c, e, to) {
+							s.A = 1
+							return []pathsim.State{s}
+						}
+						if callTo(ev.Obj)(c, e) && s.A == 1 {
+							s.A = 2
+							return []pathsim.State{s}
+						}
+						if (e.Kind == pathsim.EvReturn || e.Kind == pathsim.EvExit) && s.A == 1 {
+							c.Violate(e.Pos, "[%s] %s", tag, why)
+						}
+						return nil
+					}}
+					r.Sim(lit, owner+"$"+to.Name(), sp)
+					return true
+				})
+				if n == 0 {
+					r.Error("undecided: %s: no task literal sets %s", owner, to.Name())
+				}
+			}
+			follow(st.Decl.Body, st.Name(), running, "no-evaluate-after-running", "the task that makes the job Running ends without re-evaluating the cluster status: a member that deregistered or died while the assembly was being deployed is not noticed (evaluations during StatusAssemblyStarting do nothing), so the job keeps 'running' on a broken assembly")
+			follow(goLit.Body, ev.Name(), paused, "no-evaluate-after-failed-start", "after a failed start the job is set to Paused without re-evaluating the cluster status: with enough nodes registered nothing triggers a new deployment until the next membership change")
+		}})
+
 	register(&Obligation{ID: "C15.e", Props: []string{"C15", "C16", "C13"}, Template: "error-discipline",
 		Desc: "jobs/job.go: the errors of Assembly.AssignSplits, SourceSplitter.Start and Assembly.UpdateRetainedCheckpoints are not discarded",
 		Run: func(r *Run) {
